@@ -183,6 +183,11 @@ def handleRuntime (toks : List String) : Option String :=
         some (if metricsOK cfg (expStatusN cfg ops) (decodeTok cur) resp then "ok" else "bad" ++ why)
       | none => some "bad unparsable-answer"
     | _ => some "error bad-request"
+  -- race:true variants built with the race detector: the model has no data races to report
+  -- (RuntimeSpec treats Track as atomic per id), so the expected answer is constant
+  | "rt:norace" :: _ => some "no-race"
+  | "judge:rt:norace" :: impl =>
+    some (if impl == ["no-race"] then "ok" else "bad data-race-reported-by-the-race-detector")
   | _ => none
 
 end GoatSpec.Drv
